@@ -50,7 +50,7 @@ func runC03(r *core.Run) (bool, string) {
 		return false, "interpreter calibration failed: no verdicts issued"
 	}
 	rng := core.NewRng(r.Seed, "c03")
-	npk := r.Pick(5, 40)
+	npk := r.Pick(5, 70)
 	per := r.Pick(6, 10)
 	var cps []*gen.ConcPackage
 	var pkgs []*gorun.Pkg
